@@ -605,17 +605,15 @@ DataView dataSlice(const DataArray &array, const std::vector<double> &start, con
         if (my_start[i] > my_end[i]) {
             throw std::invalid_argument("Start position must not be larger than end position.");
         }
-        std::vector<optional<std::pair<ndsize_t, ndsize_t>>> indices = positionToIndex({my_start[i]}, {my_end[i]}, {my_units[i]}, match, dim);
+        // a request with start == end is a point request: the closed interval [start, start] in both modes
+        RangeMatch dim_match = (match == RangeMatch::Exclusive && my_start[i] == my_end[i]) ? RangeMatch::Inclusive : match;
+        std::vector<optional<std::pair<ndsize_t, ndsize_t>>> indices = positionToIndex({my_start[i]}, {my_end[i]}, {my_units[i]}, dim_match, dim);
         if (!indices[0]) {
-            optional<ndsize_t> ofst = positionToIndex(my_start[i], my_units[i], PositionMatch::GreaterOrEqual, dim);
-            if (my_end[i] - my_start[i] > std::numeric_limits<double>::epsilon() || !ofst) {
-                throw nix::OutOfBounds("util::offsetAndCount:An invalid range was encountered!");
-            }
-            offset[i] = *ofst;
-        } else {
-            offset[i] = (*indices[0]).first;
-            count[i] +=  (*indices[0]).second - (*indices[0]).first;
+            // no coordinate lies in the requested interval
+            throw nix::OutOfBounds("util::offsetAndCount:An invalid range was encountered!");
         }
+        offset[i] = (*indices[0]).first;
+        count[i] +=  (*indices[0]).second - (*indices[0]).first;
     }
     if (!positionAndExtentInData(array, offset, count)) {
         throw OutOfBounds("Selected data slice is out of the extent of the DataArray!", 0);
